@@ -153,6 +153,28 @@ def jump_programs(r: Rng, tier):
     return out
 
 
+def cascade_case(r: Rng, depth, boundary):
+    """A chain of `depth` forward references; each spans exactly the next one at the largest distance its current length can
+    encode (`boundary` = 15 or 255), except the last, which is one byte further.  The last grows first, which pushes the one
+    before it over the boundary in the NEXT layout pass, and so on: the layout needs `depth` + 1 passes - more than any bound
+    derived from the length of a single encoding."""
+    base = 1 if boundary == 15 else 2
+    fill = boundary - base
+    one = lambda n: [r.choice(["OPR ADD", "OPR SUB", "LDAC 0", "LDBC 1"]) for _ in range(n)]
+    lines = ["BR start", "DATA 16383", "start", f"{r.choice(REL)} t1"]
+    for i in range(1, depth):
+        lines += one(fill) + [f"{r.choice(REL)} t{i + 1}", f"t{i}"]
+    lines += one(fill + 1) + [f"t{depth}", "OPR SVC"]
+    return lines
+
+
+def cascade_programs(r: Rng, tier):
+    depths = list(range(2, 15)) + [16, 20, 24] if tier == "quick" else list(range(2, 40)) + [48, 64, 96]
+    out = [render(r, cascade_case(r, d, 15)) for d in depths]
+    out += [render(r, cascade_case(r, d, 255)) for d in (depths[:6] + [9, 10, 12] if tier == "quick" else depths[:20])]
+    return out
+
+
 def shipped_sources():
     return [open(f, "rb").read() for f in sorted(glob.glob(os.path.join(REPO, "tests", "asm", "*.S")))]
 
@@ -174,6 +196,7 @@ def c05_programs(r: Rng, tier):
         for gap in range(8, 20):
             progs.append(render(r, chain_case(r, k, gap)))
     progs += jump_programs(r, tier)
+    progs += cascade_programs(r, tier)
     nalign = 200 if tier == "quick" else 5000
     for _ in range(nalign):
         progs.append(render(r, align_case(r)))
